@@ -29,7 +29,7 @@ ASSUMPTIONS = [
 ]
 
 EPS32 = float(np.finfo(np.float32).eps)
-FAMILIES = ["const", "b1", "b2", "b4", "b8", "outlier", "offset", "grid", "step", "ramp", "tiny", "huge"]
+FAMILIES = ["const", "b1", "b2", "b4", "b8", "outlier", "offset", "grid", "step", "ramp", "tiny", "huge", "bandpass"]
 
 
 def prime():
@@ -65,6 +65,11 @@ def make(kind, n, nch, seed):
     if kind == "ramp":
         x = rng.integers(-16, 17, (n, nch)) / 8 + np.round(np.linspace(0, float(rng.choice([8, 64, -200])), n) * 8)[:, None] / 8
         return x.astype(np.float32)
+    if kind == "bandpass":
+        # channels sit at different levels and have different spreads (a bandpass shape): the ranges of two channels need
+        # not overlap at all
+        lev = np.array([(-1) ** c * 64.0 * c for c in range(nch)]) + float(rng.integers(-8, 9))
+        return (lev[None, :] + rng.integers(-8, 9, (n, nch)) * (1 + np.arange(nch))[None, :] / 8).astype(np.float32)
     if kind in ("tiny", "huge"):
         # the unit of the data is arbitrary (calibrated Jy of 1e-6, raw counts of 1e+6): a skewed, non-constant
         # distribution on a dyadic grid scaled by 2^-20 or 2^+20
@@ -183,7 +188,7 @@ def check(case, ctx):
 
 def enum_compositions(tier):
     nmax = 10 if tier == "quick" else 13
-    fams = ["b1", "b8", "offset", "grid", "outlier", "const", "step", "tiny"] if tier == "quick" else FAMILIES
+    fams = ["b1", "b8", "offset", "grid", "outlier", "const", "step", "tiny", "bandpass"] if tier == "quick" else FAMILIES
     for fam in fams:
         for mode in ("basic", "full"):
             for n in range(2, nmax + 1):
